@@ -1,12 +1,818 @@
-"""Async runtime models (filled in at stage 3)."""
+"""Async runtime models: futures, executors, spawn_blocking, channels and the async fs surface of
+async-std and tokio.  Coroutines (async fn bodies) are *interpreted* from the MIR; only leaf
+futures of the runtimes are modelled."""
+import re
+import z3
+
 from . import TABLE as T
 from ..values import *
+from ..values import _Moved
+from ..interp import BufObj, BytesRef, MutBytesRef, NONE, SOME, OK, ERR, READY, PENDING, STD_ENUMS
+from .. import sbytes as sb
+from ..sbytes import SBytes
+from .core import as_sbytes, peel, mk_vec_u8, mk_pathbuf, RIter, panic, _addv
+from . import fs as F
+from .fs import wrap, io_err, FsErr, IoError
+
+STD_ENUMS["Poll"] = ["Ready", "Pending"]
+
+
+class Cx:
+    rust_type = "Context"
+
+
+CX = Cx()
+
+
+def pin_target(p):
+    """Pin<&mut T> / &mut T  ->  the T value."""
+    v = p
+    while True:
+        if isinstance(v, Ref):
+            v = v.get()
+            continue
+        if isinstance(v, Agg) and v.ty in ("Pin", "std::pin::Pin") or (isinstance(v, Agg) and v.ty is not None and str(v.ty).endswith("Pin")):
+            v = v.fields[0]
+            continue
+        return v
+
+
+def mk_pin(ref):
+    return Agg("struct", "Pin", [ref], ["pointer"])
+
+
+@T.path("std::pin::Pin::new", "core::pin::Pin::new", "std::pin::Pin::new_unchecked", "core::pin::Pin::new_unchecked")
+def _pin_new(I, a, d):
+    return mk_pin(a[0])
+
+
+@T.trait("DerefMut", "deref_mut", r"Pin$")
+def _pin_deref_mut(I, a, d):
+    p = peel(a[0])
+    return p.fields[0]
+
+
+@T.trait("Deref", "deref", r"Pin$")
+def _pin_deref(I, a, d):
+    p = peel(a[0])
+    return p.fields[0]
+
+
+@T.path("std::pin::Pin::as_mut", "core::pin::Pin::as_mut")
+def _pin_as_mut(I, a, d):
+    p = peel(a[0])
+    return mk_pin(p.fields[0])
+
+
+@T.path("std::pin::Pin::get_mut", "core::pin::Pin::get_mut", "std::pin::Pin::get_unchecked_mut", "core::pin::Pin::get_unchecked_mut",
+        "std::pin::Pin::into_inner", "std::pin::Pin::get_ref")
+def _pin_get_mut(I, a, d):
+    p = peel(a[0]) if isinstance(a[0], Ref) else a[0]
+    return p.fields[0]
+
+
+@T.path("std::pin::Pin::set", "core::pin::Pin::set")
+def _pin_set(I, a, d):
+    p = a[0]
+    r = p.fields[0]
+    old = r.loc.get()
+    I.drop_value(old)
+    r.loc.set(a[1])
+    return UNIT
+
+
+# ---------------------------------------------------------------------------
+# futures
+
+class ModelFuture:
+    """A leaf future: completes (Ready) with the result of a thunk the first time it is polled."""
+    rust_type = "ModelFuture"
+
+    def __init__(self, thunk, name=""):
+        self.thunk = thunk
+        self.name = name
+        self.done = False
+
+    def poll(self, I, cx):
+        if self.done:
+            panic("`async fn` resumed after completion")
+        self.done = True
+        return READY(self.thunk())
+
+    def rust_drop(self, I):
+        pass
+
+
+def poll_any(I, fut_pin, cx):
+    """Future::poll on whatever the pin points to."""
+    tgt = pin_target(fut_pin)
+    if isinstance(tgt, Coroutine):
+        return I.run_fn(tgt.body, [fut_pin if isinstance(fut_pin, Agg) else mk_pin(fut_pin), cx])
+    if hasattr(tgt, "poll"):
+        return tgt.poll(I, cx)
+    if isinstance(tgt, BoxV):
+        return poll_any(I, mk_pin(Ref(CellLoc(tgt.cell), True)), cx)
+    raise Inconclusive("Future::poll on %r" % (tgt,))
+
+
+@T.trait("Future", "poll")
+def _future_poll(I, a, d):
+    return poll_any(I, a[0], a[1])
+
+
+def block_on(I, fut, max_polls=64):
+    """Drive a future to completion on the current 'thread'.  Pending means some background task has
+    to make progress first; the runtime model runs one and re-polls."""
+    cell = Cell(fut)
+    pin = mk_pin(Ref(CellLoc(cell), True))
+    rt = runtime(I)
+    for _ in range(max_polls):
+        r = poll_any(I, pin, CX)
+        if r.vname == "Ready":
+            return r.fields[0]
+        if not rt.run_one(I):
+            raise Hang("future is Pending and no background task can make progress (lost wake-up)")
+    raise Hang("future not ready after %d polls" % max_polls)
+
+
+def drive_io(session, op, href, *args):
+    """Scenario-level single I/O call on an async handle: poll the trait method until Ready."""
+    from ..engine import Outcome
+    I = session.I
+    meth = {"hwrite": ("AsyncWrite", "poll_write"), "hflush": ("AsyncWrite", "poll_flush"),
+            "hclose": ("AsyncWrite", "poll_close" if session.flavour == "async-std" else "poll_shutdown"),
+            "hread": ("AsyncRead", "poll_read"), "hwrite_all": None}[op]
+    try:
+        if op == "hwrite_all":
+            fut = WriteAllFut(href, as_sbytes(args[0]))
+            v = block_on(I, fut)
+        elif op == "hread" and session.flavour == "tokio":
+            dst = args[0]
+            rb = ReadBufObj(dst)
+            fut = PollFnFut(lambda I2, cx: I2.call_trait_method("AsyncRead", "poll_read", [mk_pin(href), cx, Ref(ValLoc(rb), True)]))
+            v = block_on(I, fut)
+            if v.vname == "Ok":
+                v = OK(rb.filled_n)
+        else:
+            fut = PollFnFut(lambda I2, cx: I2.call_trait_method(meth[0], meth[1], [mk_pin(href), cx] + list(args)))
+            v = block_on(I, fut)
+    except RustPanic as e:
+        return Outcome("panic", None, e.msg)
+    except RustAbort as e:
+        return Outcome("abort", None, str(e))
+    except Hang as e:
+        return Outcome("hang", None, str(e))
+    except ProcessCrash as e:
+        session.env.crashed = True
+        return Outcome("crash", None, str(e))
+    if isinstance(v, Adt) and v.ty == "Result":
+        return Outcome("ok" if v.vname == "Ok" else "err", v.fields[0])
+    return Outcome("ok", v)
+
+
+class PollFnFut:
+    rust_type = "PollFn"
+
+    def __init__(self, f):
+        self.f = f
+
+    def poll(self, I, cx):
+        if callable(self.f):
+            return self.f(I, cx)
+        return I.call_value(self.f, [Ref(ValLoc(cx), True)])
+
+
+@T.path("futures::future::poll_fn", "std::future::poll_fn", "core::future::poll_fn", "futures_util::future::poll_fn")
+def _poll_fn(I, a, d):
+    return PollFnFut(a[0])
+
+
+class MapFut:
+    rust_type = "MapFuture"
+
+    def __init__(self, inner, f):
+        self.inner = Cell(inner)
+        self.f = f
+
+    def poll(self, I, cx):
+        r = poll_any(I, mk_pin(Ref(CellLoc(self.inner), True)), cx)
+        if r.vname == "Pending":
+            return r
+        return READY(I.call_value(self.f, [r.fields[0]]))
+
+    def rust_drop(self, I):
+        I.drop_value(self.inner.v)
+
+
+@T.trait("FutureExt", "map")
+def _future_map(I, a, d):
+    return MapFut(a[0], a[1])
+
+
+@T.trait("TryFutureExt", "map_err")
+def _future_map_err(I, a, d):
+    f = a[1]
+
+    class G:
+        def call(self, I2, args):
+            r = args[0]
+            if r.vname == "Err":
+                return ERR(I2.call_value(f, [r.fields[0]]))
+            return r
+    return MapFut(a[0], G())
+
+
+# -- runtime: background tasks
+
+class Task:
+    def __init__(self, closure, name):
+        self.closure = closure
+        self.name = name
+        self.state = "pending"     # pending | done | panicked
+        self.result = None
+        self.panic = None
+        self.detached = False
+
+    def run(self, I):
+        if self.state != "pending":
+            return
+        try:
+            self.result = I.call_value(self.closure, [])
+            self.state = "done"
+        except RustPanic as e:
+            self.state = "panicked"
+            self.panic = e
+
+
+class Runtime:
+    def __init__(self):
+        self.tasks = []
+
+    def spawn(self, I, closure):
+        t = Task(closure, "blocking#%d" % len(self.tasks))
+        self.tasks.append(t)
+        # the blocking pool may run the job at once, or later (first poll / drop / quiescence)
+        mode = I.env.spawn_mode
+        if mode is None:
+            mode = ("eager", "lazy")[I.w.choose(2, "spawn_blocking-timing")]
+        if mode == "eager":
+            t.run(I)
+        return t
+
+    def run_one(self, I):
+        for t in self.tasks:
+            if t.state == "pending":
+                t.run(I)
+                return True
+        return False
+
+    def quiesce(self, I):
+        n = 0
+        while self.run_one(I):
+            n += 1
+        return n
+
+
+def runtime(I):
+    rt = getattr(I.env, "runtime", None)
+    if rt is None:
+        rt = I.env.runtime = Runtime()
+    if not hasattr(I.env, "spawn_mode"):
+        I.env.spawn_mode = "eager"
+    return rt
+
+
+class JoinHandleV:
+    rust_type = "JoinHandle"
+
+    def __init__(self, task, tokio):
+        self.task = task
+        self.tokio = tokio
+
+    def poll(self, I, cx):
+        t = self.task
+        if t.state == "pending":
+            # the waker fires when the pool finishes the job: model that as "job runs now"
+            if I.env.spawn_mode == "lazy-pending" and not getattr(t, "polled", False):
+                t.polled = True
+                return PENDING()
+            t.run(I)
+        if t.state == "panicked":
+            if self.tokio:
+                return READY(ERR(Agg("struct", "JoinError", [])))
+            raise t.panic
+        v = t.result
+        t.result = MOVED
+        return READY(OK(v) if self.tokio else v)
+
+    def rust_drop(self, I):
+        # dropping a JoinHandle detaches the task; the closure still runs on the pool later
+        self.task.detached = True
+
+
+@T.path("async_std::task::spawn_blocking", "tokio::task::spawn_blocking", "spawn_blocking")
+def _spawn_blocking(I, a, d):
+    rt = runtime(I)
+    t = rt.spawn(I, a[0])
+    return JoinHandleV(t, I.prog.flavour == "tokio")
+
+
+@T.path("async_std::task::spawn", "tokio::task::spawn", "tokio::spawn")
+def _spawn(I, a, d):
+    raise Inconclusive("task::spawn")
+
+
+# -- oneshot channel
+
+class Chan:
+    def __init__(self):
+        self.value = None
+        self.sent = False
+        self.sender_alive = True
+        self.receiver_alive = True
+
+
+class SenderV:
+    rust_type = "oneshot::Sender"
+
+    def __init__(self, ch):
+        self.ch = ch
+
+    def rust_drop(self, I):
+        self.ch.sender_alive = False
+
+
+class ReceiverV:
+    rust_type = "oneshot::Receiver"
+
+    def __init__(self, ch):
+        self.ch = ch
+
+    def poll(self, I, cx):
+        ch = self.ch
+        if ch.sent:
+            v = ch.value
+            ch.value = MOVED
+            return READY(OK(v))
+        if not ch.sender_alive:
+            return READY(ERR(Agg("struct", "Canceled", [])))
+        return PENDING()
+
+    def rust_drop(self, I):
+        self.ch.receiver_alive = False
+        if self.ch.sent and not isinstance(self.ch.value, _Moved):
+            I.drop_value(self.ch.value)
+
+
+@T.path("futures::futures_channel::oneshot::channel", "futures::channel::oneshot::channel", "futures_channel::oneshot::channel",
+        "tokio::sync::oneshot::channel")
+def _oneshot_channel(I, a, d):
+    ch = Chan()
+    return Agg("tuple", None, [SenderV(ch), ReceiverV(ch)])
+
+
+@T.path("futures::futures_channel::oneshot::Sender::send", "futures::channel::oneshot::Sender::send", "futures_channel::oneshot::Sender::send",
+        "tokio::sync::oneshot::Sender::send")
+def _oneshot_send(I, a, d):
+    s = peel(a[0])
+    ch = s.ch
+    ch.sender_alive = False
+    if not ch.receiver_alive:
+        return ERR(a[1])
+    ch.value = a[1]
+    ch.sent = True
+    return OK(UNIT)
+
+
+# -- Mutex
+
+class MutexV:
+    rust_type = "Mutex"
+
+    def __init__(self, v):
+        self.cell = Cell(v)
+        self.locked = False
+        self.poisoned = False
+
+    def rust_drop(self, I):
+        I.drop_value(self.cell.v)
+
+
+class GuardV:
+    rust_type = "MutexGuard"
+
+    def __init__(self, m):
+        self.m = m
+
+    def rust_drop(self, I):
+        self.m.locked = False
+
+
+@T.path("std::sync::Mutex::new")
+def _mutex_new(I, a, d):
+    return MutexV(a[0])
+
+
+@T.path("std::sync::Mutex::lock")
+def _mutex_lock(I, a, d):
+    m = peel(a[0])
+    if m.locked:
+        raise Hang("deadlock: Mutex locked twice on one thread")
+    if m.poisoned:
+        return ERR(Agg("struct", "PoisonError", [GuardV(m)]))
+    m.locked = True
+    return OK(GuardV(m))
+
+
+@T.path("std::sync::Mutex::into_inner")
+def _mutex_into_inner(I, a, d):
+    m = peel(a[0])
+    return OK(m.cell.v)
+
+
+@T.trait("DerefMut", "deref_mut", r"MutexGuard$")
+def _guard_deref_mut(I, a, d):
+    g = peel(a[0])
+    return Ref(CellLoc(g.m.cell), True)
+
+
+@T.trait("Deref", "deref", r"MutexGuard$")
+def _guard_deref(I, a, d):
+    g = peel(a[0])
+    return Ref(CellLoc(g.m.cell), False)
+
+
+# ---------------------------------------------------------------------------
+# async I/O extension futures
+
+class WriteAllFut:
+    """futures / tokio AsyncWriteExt::write_all."""
+    rust_type = "WriteAll"
+
+    def __init__(self, writer_ref, data):
+        self.writer = writer_ref
+        self.data = data
+        self.pos = 0
+        self.rounds = 0
+
+    def poll(self, I, cx):
+        while True:
+            self.rounds += 1
+            if self.rounds > 24:
+                raise Hang("write_all does not make progress")
+            total = self.data.length()
+            if is_sym(total) or is_sym(self.pos):
+                done = I.w.branch(bv(self.pos, 64) == bv(total, 64), "awrite_all-done")
+            else:
+                done = self.pos == total
+            if done:
+                return READY(OK(UNIT))
+            chunk = BytesRef(sb.slice_(self.data, self.pos, total, I.w), "bytes")
+            r = poll_write_any(I, self.writer, cx, chunk)
+            if r.vname == "Pending":
+                return r
+            res = r.fields[0]
+            if res.vname == "Err":
+                return READY(res)
+            n = res.fields[0]
+            if is_sym(n):
+                if I.w.branch(n == 0, "awrite_all-zero"):
+                    return READY(ERR(io_err("WriteZero")))
+                rem = I._sub(total, self.pos)
+                if not I.w.branch(z3.ULE(bv(n, 64), bv(rem, 64)), "awrite_all-n<=len"):
+                    panic("write_all: writer reported more bytes than it was given")
+            else:
+                if n == 0:
+                    return READY(ERR(io_err("WriteZero")))
+                rem = I._sub(total, self.pos)
+                if not is_sym(rem) and n > rem:
+                    panic("write_all: writer reported more bytes than it was given")
+            self.pos = _addv(self.pos, n)
+
+    def rust_drop(self, I):
+        pass
+
+
+def poll_write_any(I, wref, cx, chunk):
+    tgt = peel(wref)
+    if isinstance(tgt, AsyncFileObj):
+        return READY(wrap(I, lambda: F.op_write(I, tgt.f, chunk.sb)))
+    return I.call_trait_method("AsyncWrite", "poll_write", [mk_pin(wref), cx, chunk])
+
+
+@T.trait("AsyncWriteExt", "write_all")
+def _awrite_all(I, a, d):
+    return WriteAllFut(a[0], as_sbytes(a[1]))
+
+
+@T.trait("AsyncWriteExt", "write")
+def _awrite(I, a, d):
+    w, data = a[0], BytesRef(as_sbytes(a[1]))
+    return PollFnFut(lambda I2, cx: poll_write_any(I2, w, cx, data))
+
+
+def poll_flush_any(I, wref, cx, meth="poll_flush"):
+    tgt = peel(wref)
+    if isinstance(tgt, AsyncFileObj):
+        return READY(OK(UNIT))
+    return I.call_trait_method("AsyncWrite", meth, [mk_pin(wref), cx])
+
+
+@T.trait("AsyncWriteExt", "flush")
+def _aflush(I, a, d):
+    w = a[0]
+    return PollFnFut(lambda I2, cx: poll_flush_any(I2, w, cx))
+
+
+@T.trait("AsyncWriteExt", "close")
+def _aclose(I, a, d):
+    w = a[0]
+    return PollFnFut(lambda I2, cx: poll_flush_any(I2, w, cx, "poll_close"))
+
+
+@T.trait("AsyncWriteExt", "shutdown")
+def _ashutdown(I, a, d):
+    w = a[0]
+    return PollFnFut(lambda I2, cx: poll_flush_any(I2, w, cx, "poll_shutdown"))
+
+
+class ReadBufObj:
+    """tokio::io::ReadBuf over a &mut [u8] window."""
+    rust_type = "ReadBuf"
+
+    def __init__(self, dst):
+        self.dst = dst            # MutBytesRef
+        self.filled_n = 0
+
+    @property
+    def filled(self):
+        return BytesRef(sb.slice_(self.dst.buf.sb, self.dst.start, _addv(self.dst.start, self.filled_n), sb.CURRENT_WORLD[0]))
+
+    def unfilled_window(self):
+        return MutBytesRef(self.dst.buf, _addv(self.dst.start, self.filled_n), self.dst.end)
+
+
+@T.path("tokio::io::ReadBuf::filled")
+def _readbuf_filled(I, a, d):
+    return peel(a[0]).filled
+
+
+@T.path("tokio::io::ReadBuf::new")
+def _readbuf_new(I, a, d):
+    return ReadBufObj(F._mut_window(I, a[0]))
+
+
+@T.path("tokio::io::ReadBuf::remaining")
+def _readbuf_remaining(I, a, d):
+    rb = peel(a[0])
+    w = rb.unfilled_window()
+    return I._sub(w.end, w.start)
+
+
+def poll_read_any(I, rref, cx, dst):
+    """-> Poll<io::Result<usize>> regardless of flavour."""
+    tgt = peel(rref)
+    if isinstance(tgt, AsyncFileObj):
+        return READY(wrap(I, lambda: F.op_read(I, tgt.f, dst)))
+    if I.prog.flavour == "tokio":
+        rb = ReadBufObj(dst)
+        r = I.call_trait_method("AsyncRead", "poll_read", [mk_pin(rref), cx, Ref(ValLoc(rb), True)])
+        if r.vname == "Pending":
+            return r
+        res = r.fields[0]
+        if res.vname == "Err":
+            return r
+        return READY(OK(rb.filled_n))
+    return I.call_trait_method("AsyncRead", "poll_read", [mk_pin(rref), cx, dst])
+
+
+@T.trait("AsyncReadExt", "read")
+def _aread(I, a, d):
+    r, dst = a[0], F._mut_window(I, a[1])
+    return PollFnFut(lambda I2, cx: poll_read_any(I2, r, cx, dst))
+
+
+@T.trait("AsyncReadExt", "read_to_end")
+def _aread_to_end(I, a, d):
+    r, vec = a[0], peel(a[1])
+
+    def go(I2, cx):
+        total = 0
+        for _ in range(64):
+            probe = BufObj("array", SBytes((sb.Fill(0, 8192),)))
+            dst = MutBytesRef(probe, 0, 8192)
+            p = poll_read_any(I2, r, cx, dst)
+            if p.vname == "Pending":
+                raise Inconclusive("Pending inside read_to_end")
+            res = p.fields[0]
+            if res.vname == "Err":
+                return READY(res)
+            n = res.fields[0]
+            if is_sym(n):
+                if I2.w.branch(n == 0, "arte-eof"):
+                    return READY(OK(total))
+            elif n == 0:
+                return READY(OK(total))
+            vec.sb = vec.sb + sb.slice_(probe.sb, 0, n, I2.w)
+            total = _addv(total, n)
+        raise Hang("read_to_end does not terminate")
+    return PollFnFut(go)
+
+
+# -- async File objects
+
+class AsyncFileObj:
+    """async_std::fs::File / tokio::fs::File wrapping the VFS file."""
+    rust_type = "AsyncFile"
+
+    def __init__(self, f):
+        self.f = f
+
+    def rust_drop(self, I):
+        self.f.closed = True
+
+
+@T.trait("AsyncRead", "poll_read", r"fs::File$")
+def _afile_poll_read(I, a, d):
+    f = pin_target(a[0])
+    if I.prog.flavour == "tokio":
+        rb = peel(a[2])
+        win = rb.unfilled_window()
+        r = wrap(I, lambda: F.op_read(I, f.f, win))
+        if r.vname == "Err":
+            return READY(r)
+        rb.filled_n = _addv(rb.filled_n, r.fields[0])
+        return READY(OK(UNIT))
+    dst = F._mut_window(I, a[2])
+    return READY(wrap(I, lambda: F.op_read(I, f.f, dst)))
+
+
+@T.trait("AsyncWrite", "poll_write", r"fs::File$")
+def _afile_poll_write(I, a, d):
+    f = pin_target(a[0])
+    data = as_sbytes(a[2])
+    return READY(wrap(I, lambda: F.op_write(I, f.f, data)))
+
+
+@T.trait("AsyncWrite", "poll_flush", r"fs::File$")
+def _afile_poll_flush(I, a, d):
+    return READY(OK(UNIT))
+
+
+def _afut(thunk, name=""):
+    return ModelFuture(thunk, name)
+
+
+def _reg_async_fs(prefix):
+    P = prefix
+
+    @T.path(P + "::fs::read")
+    def _read(I, a, d):
+        p = as_sbytes(a[0])
+
+        def go():
+            def inner():
+                f = F.op_open(I, p, read=True)
+                data = F.op_read_all(I, f)
+                return mk_vec_u8(data)
+            return wrap(I, inner)
+        return _afut(go, "fs::read")
+
+    @T.path(P + "::fs::copy")
+    def _copy(I, a, d):
+        s, t = as_sbytes(a[0]), as_sbytes(a[1])
+        return _afut(lambda: wrap(I, lambda: F.op_copy(I, s, t)), "fs::copy")
+
+    @T.path(P + "::fs::metadata")
+    def _metadata(I, a, d):
+        p = as_sbytes(a[0])
+        return _afut(lambda: wrap(I, lambda: F.op_stat(I, p, True)), "fs::metadata")
+
+    @T.path(P + "::fs::symlink_metadata")
+    def _symlink_metadata(I, a, d):
+        p = as_sbytes(a[0])
+        return _afut(lambda: wrap(I, lambda: F.op_stat(I, p, False)), "fs::symlink_metadata")
+
+    @T.path(P + "::fs::remove_file")
+    def _remove_file(I, a, d):
+        p = as_sbytes(a[0])
+        return _afut(lambda: wrap(I, lambda: F.op_unlink(I, p)), "fs::remove_file")
+
+    @T.path(P + "::fs::create_dir_all")
+    def _create_dir_all(I, a, d):
+        p = as_sbytes(a[0])
+        return _afut(lambda: wrap(I, lambda: F.op_mkdir_p(I, p)), "fs::create_dir_all")
+
+    @T.path(P + "::fs::remove_dir_all")
+    def _remove_dir_all(I, a, d):
+        p = as_sbytes(a[0])
+        return _afut(lambda: wrap(I, lambda: F.op_remove_dir_all(I, p)), "fs::remove_dir_all")
+
+    @T.path(P + "::fs::rename")
+    def _rename(I, a, d):
+        s, t = as_sbytes(a[0]), as_sbytes(a[1])
+        return _afut(lambda: wrap(I, lambda: F.op_rename(I, s, t)), "fs::rename")
+
+    @T.path(P + "::fs::hard_link")
+    def _hard_link(I, a, d):
+        s, t = as_sbytes(a[0]), as_sbytes(a[1])
+        return _afut(lambda: wrap(I, lambda: F.op_link(I, s, t)), "fs::hard_link")
+
+    @T.path(P + "::fs::write")
+    def _write(I, a, d):
+        p, data = as_sbytes(a[0]), as_sbytes(a[1])
+
+        def inner():
+            f = F.op_open(I, p, write=True, create=True, truncate=True)
+            F.op_write(I, f, data)
+            return UNIT
+        return _afut(lambda: wrap(I, inner), "fs::write")
+
+    @T.path(P + "::fs::File::open")
+    def _file_open(I, a, d):
+        p = as_sbytes(a[0])
+        return _afut(lambda: wrap(I, lambda: AsyncFileObj(F.op_open(I, p, read=True))), "File::open")
+
+    @T.path(P + "::fs::File::create")
+    def _file_create(I, a, d):
+        p = as_sbytes(a[0])
+        return _afut(lambda: wrap(I, lambda: AsyncFileObj(F.op_open(I, p, write=True, create=True, truncate=True))), "File::create")
+
+    T.path(P + "::fs::OpenOptions::new")(F._oo_new)
+    for n in ("read", "write", "append", "create", "truncate", "create_new"):
+        T.path(P + "::fs::OpenOptions::" + n)(F._oo_setter(n))
+
+    @T.path(P + "::fs::OpenOptions::open")
+    def _oo_open(I, a, d):
+        o = peel(a[0])
+        p = as_sbytes(a[1])
+        opts = dict(o.o)
+        return _afut(lambda: wrap(I, lambda: AsyncFileObj(F.op_open(I, p, **opts))), "OpenOptions::open")
+
+    T.path(P + "::fs::DirBuilder::new")(F._db_new)
+    T.path(P + "::fs::DirBuilder::recursive")(F._db_recursive)
+
+    @T.path(P + "::fs::DirBuilder::create")
+    def _db_create(I, a, d):
+        b = peel(a[0])
+        p = as_sbytes(a[1])
+        rec = b.recursive
+        return _afut(lambda: wrap(I, lambda: (F.op_mkdir_p if rec else F.op_mkdir)(I, p)), "DirBuilder::create")
+
+    @T.path(P + "::io::BufReader::new")
+    def _bufreader_new(I, a, d):
+        return F.BufReaderObj(a[0])
+
+
+_reg_async_fs("async_std")
+_reg_async_fs("tokio")
+
+
+class LinesStream:
+    rust_type = "AsyncLines"
+
+    def __init__(self, reader):
+        self.reader = reader
+        self.items = None
+
+    def poll_next(self, I, cx):
+        if self.items is None:
+            f = peel(self.reader.inner)
+            f = f.f if isinstance(f, AsyncFileObj) else f
+            try:
+                data = F.op_read_all(I, f)
+            except FsErr as e:
+                self.items = []
+                return READY(SOME(ERR(io_err(e.kind, e.injected))))
+            self.items = F.lines_of(I, data)
+        if self.items:
+            return READY(SOME(self.items.pop(0)))
+        return READY(NONE())
+
+
+@T.trait("AsyncBufReadExt", "lines")
+def _alines(I, a, d):
+    return LinesStream(peel(a[0]))
+
+
+@T.path("tokio_stream::wrappers::LinesStream::new", "LinesStream::new")
+def _linesstream_new(I, a, d):
+    return a[0]
 
 
 class NextFuture:
-    def __init__(self, stream):
-        self.stream = stream
+    rust_type = "Next"
+
+    def __init__(self, stream_ref):
+        self.stream = stream_ref
+
+    def poll(self, I, cx):
+        s = peel(self.stream)
+        if hasattr(s, "poll_next"):
+            return s.poll_next(I, cx)
+        raise Inconclusive("StreamExt::next on %r" % (s,))
 
 
-def block_on(I, co):
-    raise Inconclusive("async runtime not modelled yet")
+@T.trait("StreamExt", "next", r".")
+def _stream_next2(I, a, d):
+    return NextFuture(a[0])
